@@ -106,6 +106,10 @@ func (e *Engine) RunRoot(fn *ssa.Function) (err error) {
 		e.checkIfaceCallsOnly(s, fn, fr.contract)
 		e.checkDirectCallsOnly(s, fn, fr.contract)
 		e.checkGuarded(s, fn, fr.contract)
+		e.checkOnlyCallers(s, fn, fr.contract)
+		if e.staticOnly(fr.contract) {
+			return nil
+		}
 		if fr.contract.Flags["frame_only"] != "" && fr.contract.Flags["never_writes"] == "" {
 			return nil
 		}
